@@ -95,6 +95,12 @@ type Spec struct {
 	// MatchIgnoreCase: goverter:matchIgnoreCase on the converter (C07 worlds); some fields are
 	// then spelled differently on the two sides.
 	MatchIgnoreCase bool
+	// Ctx (C07 worlds): every declared method carries two context arguments (`ctxA *CtxA,
+	// ctxB CtxB`, selected by goverter:arg:context:regex) and some fallible extend functions
+	// take one or both of them, in varying positions; the functions check the values they get.
+	// Drawn from a hash of the seed, not from the spec's PRNG, so that all other draws of a
+	// world stay what they were before this knob existed.
+	Ctx bool
 	// UseUnderlying: goverter:useUnderlyingTypeMethods on the converter (C04 worlds; there is
 	// no method it could select, so the generated conversions must stay deep copies).
 	UseUnderlying bool
@@ -163,6 +169,7 @@ func NewSpec(seed uint64, prop string) *Spec {
 	s.UseUnderlying = prop == "C04" && r.IntN(3) == 0
 	s.Aliases = r.IntN(3) == 0
 	s.MatchIgnoreCase = prop == "C07" && r.IntN(3) == 0
+	s.Ctx = prop == "C07" && ctxHash(seed, 0)%3 == 0
 	s.Shared = map[int]*node{}
 	s.NConts = map[int]*node{}
 	s.SelfRefs = map[int]string{}
@@ -402,6 +409,57 @@ func NewSpec(seed uint64, prop string) *Spec {
 }
 
 func (s *Spec) id() int { s.nextID++; return s.nextID }
+
+func ctxHash(seed uint64, id int) uint64 {
+	x := seed ^ 0xC7C7C7C7 ^ (uint64(id) * 0x9E3779B97F4A7C15)
+	x ^= x >> 30
+	x *= 0xBF58476D1CE4E5B9
+	x ^= x >> 27
+	x *= 0x94D049BB133111EB
+	x ^= x >> 31
+	return x
+}
+
+// ctxParams: the parameter list of a custom function over `src` in a Ctx world: which of
+// the two contexts it takes and where (before / after the source), drawn per function id.
+// Returns the parameter text and the Go statement that checks the received values.
+func (s *Spec) ctxParams(id int, src string, zero string, fallible bool) (string, string) {
+	if !s.Ctx {
+		return src, ""
+	}
+	a, b := "ctxA *CtxA", "ctxB CtxB"
+	ret := "panic(\"wrong context value\")"
+	if fallible {
+		ret = "return " + zero + ", errWrongContext"
+	}
+	ca := "\tif ctxA == nil || ctxA.N != 11 {\n\t\t" + ret + "\n\t}\n"
+	cb := "\tif ctxB.N != 22 {\n\t\t" + ret + "\n\t}\n"
+	switch ctxHash(s.Seed, id) % 6 {
+	case 0:
+		return src, ""
+	case 1:
+		return src + ", " + a, ca
+	case 2:
+		return src + ", " + b, cb
+	case 3:
+		return src + ", " + b + ", " + a, ca + cb
+	case 4:
+		return src + ", " + a + ", " + b, ca + cb
+	default:
+		if strings.HasPrefix(src, "c ") {
+			return src + ", " + b, cb
+		}
+		return a + ", " + src, ca
+	}
+}
+
+// CtxSig is what every declared method carries behind its other parameters in a Ctx world.
+func (s *Spec) CtxSig() string {
+	if !s.Ctx {
+		return ""
+	}
+	return ", ctxA *CtxA, ctxB CtxB"
+}
 
 func (s *Spec) mkField(i int, n *node, parent *node) *field {
 	f := &field{Name: fmt.Sprintf("F%d", i), N: n}
@@ -959,26 +1017,39 @@ func (s *Spec) TypesSource() string {
 		if li.Mode == "extendconv" {
 			arg = "c Converter, " + arg
 		}
+		chk := ""
+		if li.Mode == "extend" || li.Mode == "extendconv" {
+			arg, chk = s.ctxParams(id, arg, fmt.Sprintf("TLeaf%d{}", id), true)
+		}
 		if id == s.TypedErrLeaf {
 			// a concrete error type: nil on success is a typed nil pointer
 			fmt.Fprintf(&b, "func %s(%s) (TLeaf%d, *verifsim.InjectedError) {\n\tif verifsim.Poisoned(%q, s.ID) {\n\t\treturn TLeaf%d{}, verifsim.Inject(%q, s.ID).(*verifsim.InjectedError)\n\t}\n\treturn TLeaf%d{ID: s.ID, Mark: %q + s.V}, nil\n}\n",
-				li.Fn, arg, id, li.Fn, id, li.Fn, id, li.Fn+":")
+				li.Fn, fmt.Sprintf("s SLeaf%d", id), id, li.Fn, id, li.Fn, id, li.Fn+":")
 		} else {
-			fmt.Fprintf(&b, "func %s(%s) (TLeaf%d, error) {\n\tif verifsim.Poisoned(%q, s.ID) {\n\t\treturn TLeaf%d{}, verifsim.Inject(%q, s.ID)\n\t}\n\treturn TLeaf%d{ID: s.ID, Mark: %q + s.V}, nil\n}\n",
-				li.Fn, arg, id, li.Fn, id, li.Fn, id, li.Fn+":")
+			fmt.Fprintf(&b, "func %s(%s) (TLeaf%d, error) {\n%s\tif verifsim.Poisoned(%q, s.ID) {\n\t\treturn TLeaf%d{}, verifsim.Inject(%q, s.ID)\n\t}\n\treturn TLeaf%d{ID: s.ID, Mark: %q + s.V}, nil\n}\n",
+				li.Fn, arg, id, chk, li.Fn, id, li.Fn, id, li.Fn+":")
 		}
 		// infallible twin
 		targ := fmt.Sprintf("s SLeaf%d", id)
 		if li.Mode == "extendconv" {
 			targ = "c TwinConverter, " + targ
 		}
-		fmt.Fprintf(&b, "func Twin%s(%s) TLeaf%d {\n\treturn TLeaf%d{ID: s.ID, Mark: %q + s.V}\n}\n", li.Fn, targ, id, id, li.Fn+":")
+		tchk := ""
+		if (li.Mode == "extend" || li.Mode == "extendconv") && id != s.TypedErrLeaf {
+			targ, tchk = s.ctxParams(id, targ, "", false)
+		}
+		fmt.Fprintf(&b, "func Twin%s(%s) TLeaf%d {\n%s\treturn TLeaf%d{ID: s.ID, Mark: %q + s.V}\n}\n", li.Fn, targ, id, tchk, id, li.Fn+":")
 	}
 	for _, id := range sortedIDs(s.BLeaves) {
 		fn := s.BLeaves[id]
 		fmt.Fprintf(&b, "type SBl%d int\ntype TBl%d int\n", id, id)
-		fmt.Fprintf(&b, "func %s(v SBl%d) (TBl%d, error) {\n\tif verifsim.Poisoned(%q, int(v)) {\n\t\treturn 0, verifsim.Inject(%q, int(v))\n\t}\n\treturn TBl%d(int(v)*3 + %d), nil\n}\n", fn, id, id, fn, fn, id, id)
-		fmt.Fprintf(&b, "func Twin%s(v SBl%d) TBl%d { return TBl%d(int(v)*3 + %d) }\n", fn, id, id, id, id)
+		barg, bchk := s.ctxParams(1000+id, fmt.Sprintf("v SBl%d", id), "0", true)
+		fmt.Fprintf(&b, "func %s(%s) (TBl%d, error) {\n%s\tif verifsim.Poisoned(%q, int(v)) {\n\t\treturn 0, verifsim.Inject(%q, int(v))\n\t}\n\treturn TBl%d(int(v)*3 + %d), nil\n}\n", fn, barg, id, bchk, fn, fn, id, id)
+		targ, tchk := s.ctxParams(1000+id, fmt.Sprintf("v SBl%d", id), "", false)
+		fmt.Fprintf(&b, "func Twin%s(%s) TBl%d {\n%s\treturn TBl%d(int(v)*3 + %d)\n}\n", fn, targ, id, tchk, id, id)
+	}
+	if s.Ctx {
+		b.WriteString("type CtxA struct{ N int }\ntype CtxB struct{ N int }\n\nvar errWrongContext = errors.New(\"custom function received a wrong context value\")\n")
 	}
 	for i, e := range s.aliasOrder {
 		fmt.Fprintf(&b, "type AL%d = %s\n", i, e)
@@ -986,6 +1057,9 @@ func (s *Spec) TypesSource() string {
 	src := b.String()
 	if strings.Contains(src, "unsafe.Pointer") {
 		src = strings.Replace(src, "package w\n\n", "package w\n\nimport \"unsafe\"\n\n", 1)
+	}
+	if s.Ctx {
+		src = strings.Replace(src, "package w\n\n", "package w\n\nimport \"errors\"\n\n", 1)
 	}
 	return src
 }
@@ -1125,6 +1199,10 @@ func (s *Spec) ConverterSource() string {
 		if twin && s.Format != "variables" {
 			lines = append(lines, "// goverter:output:file ./twin/twin.go")
 		}
+		if s.Ctx {
+			// before goverter:extend: settings apply in the order they are written
+			lines = append(lines, "// goverter:arg:context:regex ^ctx")
+		}
 		var ext []string
 		for _, id := range sortedIDs(s.Leaves) {
 			li := s.Leaves[id]
@@ -1187,7 +1265,14 @@ func (s *Spec) ConverterSource() string {
 				if twin {
 					n = "Twin" + n
 				}
-				fmt.Fprintf(&b, "\t%s func(source %s) %s\n", n, m.In, m.Out)
+				switch {
+				case m.Update && m.Fallible:
+					fmt.Fprintf(&b, "\t%s func(source %s, target *%s%s) error\n", n, m.In, m.Out, s.CtxSig())
+				case m.Update:
+					fmt.Fprintf(&b, "\t%s func(source %s, target *%s%s)\n", n, m.In, m.Out, s.CtxSig())
+				default:
+					fmt.Fprintf(&b, "\t%s func(source %s%s) %s\n", n, m.In, s.CtxSig(), m.Out)
+				}
 			}
 			b.WriteString(")\n\n")
 			return
@@ -1202,13 +1287,13 @@ func (s *Spec) ConverterSource() string {
 				n = "Twin" + n
 			}
 			if m.Update && m.Fallible {
-				fmt.Fprintf(&b, "\t%s(source %s, target *%s) error\n", n, m.In, m.Out)
+				fmt.Fprintf(&b, "\t%s(source %s, target *%s%s) error\n", n, m.In, m.Out, s.CtxSig())
 			} else if m.Update && m.TargetFirst {
 				fmt.Fprintf(&b, "\t%s(target *%s, source %s)\n", n, m.Out, m.In)
 			} else if m.Update {
-				fmt.Fprintf(&b, "\t%s(source %s, target *%s)\n", n, m.In, m.Out)
+				fmt.Fprintf(&b, "\t%s(source %s, target *%s%s)\n", n, m.In, m.Out, s.CtxSig())
 			} else {
-				fmt.Fprintf(&b, "\t%s(source %s) %s\n", n, m.In, m.Out)
+				fmt.Fprintf(&b, "\t%s(source %s%s) %s\n", n, m.In, s.CtxSig(), m.Out)
 			}
 		}
 		b.WriteString("}\n\n")
